@@ -93,6 +93,10 @@ def gen_case(rnd):
 
     fmt = lambda a, k: ', '.join(list(a) + [f'{n}={v}' for n, v in k.items()])
     lines = ['import deal', '']
+    if posts and rnd.random() < .15:
+        # a validator with a positional-only parameter, and a module-level name spelled the same: the argument is the parameter, not the global
+        posts = [p.replace('lambda result:', 'lambda result, /:') for p in posts]
+        lines = ['import deal', 'result = 7', '']
     items = []
     examples = []
     for _ in range(rnd.randint(0, 3)):
@@ -112,25 +116,42 @@ def gen_case(rnd):
             items.append({'kind': 'example', 'row': len(lines), 'args': a, 'kwargs': k, 'sig': sig, 'result': res, 'validators': ordered})
         else:
             lines.append(f'@deal.{c}({v})')
-    lines.append(f'def g({sig}):')
+    is_async = rnd.random() < .15 and not examples and not ensures      # a coroutine function: the same contracts, the same findings on both back-ends
+    lines.append(f'{"async " if is_async else ""}def g({sig}):')
     rets = [rnd.choice(LITS) for _ in range(rnd.randint(1, 3))]
-    is_gen = rnd.random() < .25 and not examples and not ensures       # a generator: every yielded literal is judged like a returned one
+    is_gen = rnd.random() < .25 and not examples and not ensures and not is_async       # a generator: every yielded literal is judged like a returned one
     kw = 'yield' if is_gen else 'return'
     for i, v in enumerate(rets):
+        if i + 1 < len(rets) and rnd.random() < .2:
+            # inside a try body: still a value the function returns / yields
+            lines += ['    try:', f'        {kw} {v}', '    except ValueError:', '        pass']
+            if posts: items.append({'kind': 'post', 'row': len(lines) - 2, 'value': v, 'validators': posts})
+            continue
         if i + 1 < len(rets):
             lines.append(f'    if a == {i}:'); lines.append(f'        {kw} {v}')
         else:
             lines.append(f'    {kw} {v}')
         if posts: items.append({'kind': 'post', 'row': len(lines), 'value': v, 'validators': posts})
     quiet = []
+    if rnd.random() < .2:
+        # a nested function: its returns are not returns of g (defining it returns nothing); placed before the last return of g
+        at = len(lines) - 1
+        nested = ['    def inner():', f'        return {rnd.choice(LITS)}'] if rnd.random() < .6 else ['    async def inner():', f'        return {rnd.choice(LITS)}']
+        last = lines[at:]; del lines[at:]
+        for it in items:
+            if it['kind'] == 'post' and it['row'] > at: it['row'] += len(nested)
+        lines += nested; quiet.append(len(lines)); lines += last
+    if is_gen and rnd.random() < .5:
+        # the value a generator returns is not validated by the runtime (only what it yields)
+        lines.append(f'    return {rnd.choice(LITS)}'); quiet.append(len(lines))
     if is_gen:
         # delegation: the values come from the iterable one by one; the collection itself is not a yielded value
         lines.append(f'    yield from [{rnd.choice(LITS)}, {rnd.choice(LITS)}]'); quiet.append(len(lines))
         lines.append(f'    yield from ({rnd.choice(LITS)},)'); quiet.append(len(lines))
-    lines += ['', '', '@deal.safe', 'def caller():']
+    lines += ['', '', '@deal.safe', f'{"async " if is_async else ""}def caller():']
     for _ in range(rnd.randint(1, 4)):
         a, k = call()
-        lines.append(f'    g({fmt(a, k)})')
+        lines.append(f'    {"await " if is_async else ""}g({fmt(a, k)})')
         items.append({'kind': 'pre', 'row': len(lines), 'args': a, 'kwargs': k, 'sig': sig, 'validators': [['pre', p] for p in pres]})
     lines.append('    return 0')
     return {'src': '\n'.join(lines) + '\n', 'items': items, 'helpers': '', 'quiet_rows': quiet}
